@@ -9,6 +9,7 @@ mod c20;
 mod c12;
 mod c16;
 mod c18;
+mod c13;
 
 use common::*;
 use std::path::PathBuf;
@@ -38,6 +39,7 @@ fn main() {
         "c12" => c12::run(&mut out, tier, seed, replay),
         "c16" => c16::run(&mut out, tier, seed, replay),
         "c18" => c18::run(&mut out, tier, seed, replay),
+        "c13" => c13::run(&mut out, tier, seed, replay),
         _ => {
             eprintln!("unknown property {}", prop);
             std::process::exit(2);
